@@ -12,7 +12,17 @@ package blobserver
 
 // writeBack: the persist flag is set before the task is added; an error from either step is
 // returned (the upload is then not acknowledged).
+// wbFailed is thread-local ghost state: a writeBack call made by this request failed.
+// fromWriteBack(e) names the errors returned by writeBack (a definition: assumed at its call sites,
+// and callers that receive an error from elsewhere state that it is not one of them).
+//@ ghost field Server.wbFailed bool
+//@ specfunc fromWriteBack(e error) bool
+
 //@ func Server.writeBack
+//@   ghost_set s.wbFailed = true if result != nil
+//@   ensures failure_is_recorded: result != nil ==> s.wbFailed
+//@   lemma failure_is_tagged: result != nil ==> fromWriteBack(result)
+//@   ensures success_keeps_flag: result == nil ==> s.wbFailed == old(s.wbFailed)
 //@   requires s != nil && s.cas != nil && s.cas.cacheStore != nil && s.writeBackManager != nil && s.metaInfoGenerator != nil
 //@   modifies *
 //@   assert protected_before_task: at Manager.Add#0 :: (d.hex in s.cas.cacheStore.persisted)
@@ -23,7 +33,9 @@ package blobserver
 //@ func Server.handleUploadConflict
 //@   requires s != nil && s.cas != nil && s.cas.cacheStore != nil && s.writeBackManager != nil && s.metaInfoGenerator != nil
 //@   modifies *
+//@   requires no_failure_yet: !s.wbFailed && !fromWriteBack(err)
 //@   ensures never_swallows: err != nil ==> result != nil
+//@   ensures reports_writeback_failure: s.wbFailed ==> result != nil && fromWriteBack(result)
 
 // Forced cleanup: a file whose persist flag is set is deleted only after every write-back task
 // found for it was executed successfully and the flag was cleared; any failure on the way keeps it.
